@@ -184,13 +184,10 @@ def join_component_view(component, view):
     """
     if view is None:
         return component
-    result = [component]
-    try:
-        result.extend(view)
-    except TypeError:  # view is a scalar
-        result = [component, view]
-
-    return tuple(result)
+    if isinstance(view, tuple):
+        return (component,) + view
+    # a scalar, slice, list, index array or mask is a single view
+    return (component, view)
 
 
 def facet_subsets(data_collection, cid, lo=None, hi=None, steps=5,
